@@ -568,6 +568,8 @@ def gen_cutoff(item="G3.calculate_cutoff"):
     m = re.search(r"let\s*\(k1,\s*k2,\s*k3\)\s*=\s*match\s+windowfunc\s*", body)
     if not m:
         raise TranslateError(item, "coefficient match not found")
+    if body[:m.start()].strip():
+        raise TranslateError(item, f"statement before the coefficient table (the argument may be altered): {body[:m.start()].strip()[:80]!r}")
     tab, endpos = block_after(body, m.end(), item)
     coeffs = {}
     for mm in re.finditer(r"WindowFunction::(\w+)\s*=>\s*\(\s*T::coerce\(([\d.eE+-]+)\),\s*T::coerce\(([\d.eE+-]+)\),\s*T::coerce\(([\d.eE+-]+)\),?\s*\)", tab):
